@@ -162,6 +162,8 @@ class GeneratedAllSubsets(_Base):
             U = char_universe(info)
             opts = K.option_sets(info, tier, seed, pairs=(tier == "thorough"))
             for req in nonempty_subsets(U):
+                if not any(c in info.cm for c in req):
+                    continue  # variation selectors alone select no glyph: not a request
                 for optname, kw in opts:
                     yield [key, "unicodes", req, optname, kw, U, maxlen]
 
@@ -199,6 +201,8 @@ class GeneratedRequestKinds(_Base):
                         yield [key, kind, req, optname, kw, U, 3]
             missing = 0x10FFFD
             for req in nonempty_subsets(U):
+                if not any(c in info.cm for c in req):
+                    continue
                 for optname, kw in opts[:3]:
                     yield [key, "text", req + [missing], optname, kw, U, 3]
 
